@@ -2,6 +2,7 @@ package main
 
 import (
 	"fmt"
+	"reflect"
 	"runtime"
 	"strings"
 	"sync"
@@ -1150,6 +1151,135 @@ func noopWriter(s ds.Set[E], k int) func(stop *atomic.Bool) {
 	}
 }
 
+// setMethods: every method of the ds.Set interface as a call on `s` with `o` as the set argument (no-op callbacks).
+var setMethods = []struct {
+	name string
+	call func(s, o ds.Set[E], api *serix.API, enc []byte)
+}{
+	{"Has", func(s, o ds.Set[E], _ *serix.API, _ []byte) { s.Has(1) }},
+	{"HasAll", func(s, o ds.Set[E], _ *serix.API, _ []byte) { s.HasAll(o) }},
+	{"ForEach", func(s, o ds.Set[E], _ *serix.API, _ []byte) { _ = s.ForEach(func(E) error { return nil }) }},
+	{"Range", func(s, o ds.Set[E], _ *serix.API, _ []byte) { s.Range(func(E) {}) }},
+	{"Intersect", func(s, o ds.Set[E], _ *serix.API, _ []byte) { s.Intersect(o) }},
+	{"Filter", func(s, o ds.Set[E], _ *serix.API, _ []byte) { s.Filter(func(e E) bool { return e%2 == 0 }) }},
+	{"Equals", func(s, o ds.Set[E], _ *serix.API, _ []byte) { s.Equals(o) }},
+	{"Any", func(s, o ds.Set[E], _ *serix.API, _ []byte) { s.Any() }},
+	{"Is", func(s, o ds.Set[E], _ *serix.API, _ []byte) { s.Is(1) }},
+	{"Iterator", func(s, o ds.Set[E], _ *serix.API, _ []byte) { s.Iterator() }},
+	{"Clone", func(s, o ds.Set[E], _ *serix.API, _ []byte) { s.Clone() }},
+	{"Size", func(s, o ds.Set[E], _ *serix.API, _ []byte) { s.Size() }},
+	{"IsEmpty", func(s, o ds.Set[E], _ *serix.API, _ []byte) { s.IsEmpty() }},
+	{"Clear", func(s, o ds.Set[E], _ *serix.API, _ []byte) { s.Clear() }},
+	{"ToSlice", func(s, o ds.Set[E], _ *serix.API, _ []byte) { s.ToSlice() }},
+	{"Encode", func(s, o ds.Set[E], api *serix.API, _ []byte) { _, _ = s.Encode(api) }},
+	{"String", func(s, o ds.Set[E], _ *serix.API, _ []byte) { _ = s.String() }},
+	{"Add", func(s, o ds.Set[E], _ *serix.API, _ []byte) { s.Add(2) }},
+	{"AddAll", func(s, o ds.Set[E], _ *serix.API, _ []byte) { s.AddAll(o) }},
+	{"Delete", func(s, o ds.Set[E], _ *serix.API, _ []byte) { s.Delete(2) }},
+	{"DeleteAll", func(s, o ds.Set[E], _ *serix.API, _ []byte) { s.DeleteAll(o) }},
+	{"Apply", func(s, o ds.Set[E], _ *serix.API, _ []byte) {
+		s.Apply(ds.NewSetMutations[E](4).WithDeletedElements(o))
+	}},
+	{"Compute", func(s, o ds.Set[E], _ *serix.API, _ []byte) {
+		s.Compute(func(rs ds.ReadableSet[E]) ds.SetMutations[E] {
+			return ds.NewSetMutations[E](3).WithDeletedElements(rs.Intersect(o))
+		})
+	}},
+	{"Replace", func(s, o ds.Set[E], _ *serix.API, _ []byte) { s.Replace(o) }},
+	{"Decode", func(s, o ds.Set[E], api *serix.API, enc []byte) { _, _ = s.Decode(api, enc) }},
+	{"ReadOnly", func(s, o ds.Set[E], _ *serix.API, _ []byte) { s.ReadOnly().Has(1) }},
+}
+
+// pairs: EVERY unordered pair {M1, M2} of methods of the ds.Set interface (M1 = M2 included): two goroutines call s.M1(o) and
+// s.M2(o) k times each while a third keeps an Apply/Compute pending on s (the pressure that turns a re-entrant
+// applyMutex.RLock into a deadlock) and a fourth keeps writes to the ordered map pending (Add/Delete of an element outside
+// the universe: the pressure that turns a re-entrant map RLock, e.g. a Clone through ForEach, into one); o is a second set
+// that a fifth goroutine mutates.  Every call must return: watchdog => oracle `deadlock` naming the pair.  The answer is
+// `done`; an interface method without an entry in setMethods answers `uncovered:<names>` (a gap of the harness, not of the code).
+func (w *world) pairs(k int) string {
+	if k < 1 || k > 10000 {
+		return "bad-op"
+	}
+	covered := map[string]bool{}
+	for _, m := range setMethods {
+		covered[m.name] = true
+	}
+	it := reflect.TypeOf((*ds.Set[E])(nil)).Elem()
+	var missing []string
+	for i := 0; i < it.NumMethod(); i++ {
+		if n := it.Method(i).Name; !covered[n] {
+			missing = append(missing, n)
+		}
+	}
+	if len(missing) > 0 || it.NumMethod() != len(setMethods) {
+		return "uncovered:" + strings.Join(missing, ",")
+	}
+	enc := encodeLit([]E{0, 4}, false, nil)
+	for i := range setMethods {
+		for j := i; j < len(setMethods); j++ {
+			m1, m2 := setMethods[i], setMethods[j]
+			s, o := ds.NewSet[E](0, 1, 2, 3, 4, 5), ds.NewSet[E](1, 5)
+			var stop atomic.Bool
+			done := make(chan struct{}, 5)
+			run := func(f func()) {
+				go func() {
+					defer func() { _ = recover(); done <- struct{}{} }()
+					f()
+				}()
+			}
+			run(func() {
+				for n := 0; n < k; n++ {
+					m1.call(s, o, w.api, enc)
+				}
+			})
+			run(func() {
+				for n := 0; n < k; n++ {
+					m2.call(s, o, w.api, enc)
+				}
+			})
+			mains := 2
+			bg := []func(){
+				func() { noopWriter(s, i+j)(&stop) },
+				func() {
+					for !stop.Load() {
+						s.Add(1000)
+						s.Delete(1000)
+					}
+				},
+				func() {
+					for !stop.Load() {
+						o.Add(3)
+						o.Delete(3)
+					}
+				},
+			}
+			for _, f := range bg {
+				run(f)
+			}
+			timeout := time.After(watchdog)
+			for n := 0; n < mains+len(bg); n++ {
+				if n == mains {
+					stop.Store(true)
+				}
+				select {
+				case <-done:
+				case <-timeout:
+					stop.Store(true)
+					w.r.Fail("deadlock", fmt.Sprintf("pair s.%s(o) || s.%s(o) with an Apply/Compute loop and an Add/Delete loop on s: %d of %d goroutines returned within %v",
+						m1.name, m2.name, n, mains+len(bg), watchdog),
+						map[string]string{"api": "Set." + m1.name + "|Set." + m2.name, "oracle": "deadlock", "schedule": "method-pair"})
+					hangs++
+
+					return "hung"
+				}
+			}
+			w.r.Count("pairs:returned")
+		}
+	}
+
+	return "done"
+}
+
 // alias: `s.M(s)` looping against two goroutines doing no-op Apply/Compute on the same set.
 func (w *world) alias(method string, n int) string {
 	if setCallAPI[method] == "" || n < 1 || n > 1000000 {
@@ -1285,6 +1415,7 @@ func runConcurrent(r *hx.Run) {
 		}
 		ops = append(ops, fmt.Sprintf("race %s %d", k, rounds))
 	}
+	ops = append(ops, fmt.Sprintf("pairs %d", 20))
 	runCase(r, 0, ops)
 	ops = nil
 	for rep := 0; rep < 1+r.Scale/4 && hangs < 4; rep++ {
